@@ -1,7 +1,7 @@
 use crate::codegen::CodegenContext;
 use crate::errors::CoreResult;
 use crate::parser::code_map::Span;
-use crate::parser::{Expression, Located, Token};
+use crate::parser::{Expression, Identifier, Located, Token};
 use codespan_reporting::diagnostic::Diagnostic;
 
 pub struct ConfigExtractor<'a> {
@@ -30,6 +30,40 @@ impl<'a> ConfigExtractor<'a> {
                 .with_labels(vec![span.to_label()])
                 .into())
         }
+    }
+
+    /// Gets a string that is going to be used as a name (of a bank or a segment), so it may not be a path
+    pub fn get_identifier(&self, ctx: &mut CodegenContext, key: &str) -> CoreResult<Identifier> {
+        let name = self.get_string(ctx, key)?;
+        self.to_identifier(key, name)
+    }
+
+    pub fn try_get_identifier(
+        &self,
+        ctx: &mut CodegenContext,
+        key: &str,
+    ) -> CoreResult<Option<Identifier>> {
+        match self.try_get_string(ctx, key)? {
+            Some(name) => Ok(Some(self.to_identifier(key, name)?)),
+            None => Ok(None),
+        }
+    }
+
+    fn to_identifier(&self, key: &str, name: String) -> CoreResult<Identifier> {
+        if name.contains('.') {
+            let span = self
+                .try_get_kvp(key)
+                .map(|(_, v)| v.span)
+                .unwrap_or(self.config_span);
+            return Err(Diagnostic::error()
+                .with_message(format!(
+                    "'{}' is not a valid identifier for configuration key '{}'",
+                    name, key
+                ))
+                .with_labels(vec![span.to_label()])
+                .into());
+        }
+        Ok(Identifier::new(name))
     }
 
     pub fn try_get_string(
